@@ -139,7 +139,10 @@ class GlomError(Exception):
         try:
             # (a class may refuse to be subclassed like this: __init_subclass__
             # with required arguments, a metaclass that forbids it)
-            exc_wrapper_type = type(f"GlomError.wrap({exc_type.__name__})", bases, {})
+            # (the wrapped class may bring a __str__ of its own - KeyError, OSError, ... -
+            # which would hide the one that renders the target-spec trace)
+            exc_wrapper_type = type(f"GlomError.wrap({exc_type.__name__})", bases,
+                                    {'__str__': GlomError.__str__})
             wrapper = exc_wrapper_type(*exc.args)
             if wrapper.args != exc.args:  # re-creation changed the args
                 return exc
